@@ -177,6 +177,13 @@ pub fn faults(
             push(&format!("replay/{}", k), b.clone());
         }
     }
+    // two points of the cofactor subgroup: they pair to 1 with everything, so they would satisfy the
+    // signature equation for every message if a decoder ever let them in
+    {
+        let mut b = crate::wire::g1_cofactor_point(rng).to_vec();
+        b.extend_from_slice(&crate::wire::g1_cofactor_point(rng));
+        push("small-order-points", b);
+    }
     // all-identity signature: what the merchant's signer emits under a zero randomiser. Produced
     // through the API (BlindedSignature of the honest flow under a scripted RNG) by the caller;
     // here its wire image, which carries the infinity flag in both points.
